@@ -227,6 +227,20 @@ def handle (cmd : String) (args : List String) : String :=
           (match v'.lang with | .v1 => "1" | .v2 => "2" | .v3 => "3") ++ " " ++
           Wire.termToWire v'.program.term
       | _, _, _, _ => "bad-request"
+    -- history of applications on the published table of a generated validator
+    | "applyp", .atom fx :: ds :: ps :: .atom lang :: term :: ops =>
+      match declsOf ds, tysOf ps, (Wire.termOfSexp term : Option (Term DeBruijn)), ops.mapM opOf with
+      | some decls, some params, some t, some os =>
+        match publish decls fuel params with
+        | none => "error"
+        | some tbl =>
+          let l : Lang := if lang == "1" then .v1 else if lang == "2" then .v2 else .v3
+          let v : Validator := ⟨params.map Decl.ref, l, ⟨(1, 1, 0), t⟩⟩
+          let (outs, v') := runHistory (fx == "1") tbl v os
+          ",".intercalate outs ++ " " ++ toString v'.params.length ++ " " ++
+            (match v'.lang with | .v1 => "1" | .v2 => "2" | .v3 => "3") ++ " " ++
+            Wire.termToWire v'.program.term
+      | _, _, _, _ => "bad-request"
     | _, _ => "bad-request"
 
 end AikenVerif.Drivers.Schema
